@@ -234,6 +234,12 @@ structure Registry where
   tools : List ToolEntry
   prompts : List PromptEntry
   resources : List ResEntry
+  /-- the list filters (`WithToolListFilter`, `WithPromptListFilter`, `WithResourceListFilter` and their legacy-SSE
+      counterparts; none installed: the identity): ARBITRARY functions from the registered descriptors to the descriptors
+      the caller is shown — whatever they return, nil and empty slices alike, the list handlers answer with an array -/
+  toolFilter : List ToolDesc → List ToolDesc := id
+  promptFilter : List PromptEntry → List PromptEntry := id
+  resourceFilter : List ResEntry → List ResEntry := id
 
 def findTool (ts : List ToolEntry) (n : Text) : Option ToolEntry := ts.find? (fun t => t.desc.name == n)
 def findPrompt (ps : List PromptEntry) (n : Text) : Option PromptEntry := ps.find? (fun p => p.name == n)
@@ -412,9 +418,10 @@ def encodeResource (r : ResEntry) : Json :=
     ++ optField (!r.mime.isEmpty) t!"mimeType" (.str r.mime) ++ optField (r.size != 0) t!"size" (.int r.size))
 
 /-- `handleListTools` (order: Go map iteration — compared as a multiset by the harness) -/
-def handleListTools (reg : Registry) : Ans := .result (encodeListTools (reg.tools.map (·.desc)))
-def handleListPrompts (reg : Registry) : Ans := .result (.obj [(t!"prompts", .arr (reg.prompts.map encodePrompt))])
-def handleListResources (reg : Registry) : Ans := .result (.obj [(t!"resources", .arr (reg.resources.map encodeResource))])
+def handleListTools (reg : Registry) : Ans := .result (encodeListTools (reg.toolFilter (reg.tools.map (·.desc))))
+def handleListPrompts (reg : Registry) : Ans := .result (.obj [(t!"prompts", .arr ((reg.promptFilter reg.prompts).map encodePrompt))])
+def handleListResources (reg : Registry) : Ans :=
+  .result (.obj [(t!"resources", .arr ((reg.resourceFilter reg.resources).map encodeResource))])
 /-- `handleListTemplates` with no template registered -/
 def handleListTemplates (_reg : Registry) : Ans := .result (.obj [(t!"resourceTemplates", .arr [])])
 
@@ -679,6 +686,80 @@ def serveStreamable (c : SCfg) (reg : Registry) (st : St) (i : HttpIn) : St × R
       (r.1, .http r.2.status)
     | .other => (st, .http 405)
 
+/-! ### the Accept header (internal/httputil/accept.go, responder.go `createResponder`)
+
+The header value is a list of code points (the harness sends valid UTF-8 only). Every slice index of the Go code is a
+function that CAN panic (`goIndex`); the theorem is that `strings.Split` never returns an empty slice. -/
+
+/-- `unicode.IsSpace` -/
+def isGoSpace (c : Nat) : Bool :=
+  c == 9 || c == 10 || c == 11 || c == 12 || c == 13 || c == 32 || c == 0x85 || c == 0xA0 || c == 0x1680 ||
+  (0x2000 ≤ c && c ≤ 0x200A) || c == 0x2028 || c == 0x2029 || c == 0x202F || c == 0x205F || c == 0x3000
+
+/-- `strings.TrimSpace` -/
+def goTrimSpace (s : Text) : Text := ((s.dropWhile isGoSpace).reverse.dropWhile isGoSpace).reverse
+
+/-- `strings.Split(s, sep)` for a one-character separator -/
+def splitOn (sep : Nat) : Text → List Text
+  | [] => [[]]
+  | c :: rest =>
+    if c == sep then [] :: splitOn sep rest
+    else match splitOn sep rest with
+      | [] => [[c]]
+      | p :: ps => (c :: p) :: ps
+
+/-- `xs[i]`: Go panics when the index is out of range -/
+def goIndex {α : Type} (xs : List α) (i : Nat) : Outcome α :=
+  match xs[i]? with
+  | some x => .ok x
+  | none => .panic
+
+/-- the index expressions of internal/httputil/accept.go, as the extractor prints them (function, expression) -/
+def modelledIndexSites : List (Text × Text) :=
+  [(t!"ParseAcceptHeader", t!"strings.Split(strings.TrimSpace(accept),\";\")[0]")]
+
+/-- the media type of one element of the header: `strings.Split(strings.TrimSpace(accept), ";")[0]` -/
+def mediaTypeOf (item : Text) : Outcome Text := goIndex (splitOn 59 (goTrimSpace item)) 0
+
+def parseAcceptItems : List Text → Outcome (List Text)
+  | [] => .ok []
+  | a :: rest =>
+    match mediaTypeOf a, parseAcceptItems rest with
+    | .ok mt, .ok ms => .ok (if mt.isEmpty then ms else mt :: ms)
+    | _, _ => .panic
+
+/-- `ParseAcceptHeader` -/
+def parseAccept (h : Text) : Outcome (List Text) :=
+  if h.isEmpty then .ok [] else parseAcceptItems (splitOn 44 h)
+
+def typeEventStream : Text := t!"text/event-stream"
+
+/-- `ContainsContentType` -/
+def containsContentType (accepts : List Text) (ct : Text) : Bool := accepts.any (fun a => a == ct || a == t!"*/*")
+
+/-- `createResponder` for a request (a body with a non-null id): the POST is answered as an SSE stream -/
+def chooseSSE (postSSE : Bool) (accept : Text) : Outcome Bool :=
+  if postSSE then
+    match parseAccept accept with
+    | .ok as => .ok (containsContentType as typeEventStream)
+    | .panic => .panic
+  else .ok false
+
+/-- a Streamable HTTP request with its Accept header as sent -/
+structure HttpWire where
+  verb : Verb
+  pathOk : Bool
+  ref : Mcp.Session.Ref
+  accept : Text
+  body : Body
+
+/-- `ServeHTTP` with the header parser in front (evaluated for every request here, for requests with an id only in the
+    code: an over-approximation of where a panic of the parser could surface) -/
+def serveWire (c : SCfg) (reg : Registry) (st : Mcp.Session.St) (w : HttpWire) : Mcp.Session.St × Reaction :=
+  match parseAccept w.accept with
+  | .panic => (st, .panic)
+  | .ok as => serveStreamable c reg st ⟨w.verb, w.pathOk, w.ref, containsContentType as typeEventStream, w.body⟩
+
 /-! ## legacy SSE -/
 
 inductive SsePath | sse | message | other
@@ -814,6 +895,9 @@ def promptConforms (r : GetPromptResult) : Prop :=
     `mcp.NewTool` builds them); prompt handlers return messages with a valid role and a content. -/
 structure Registry.Conforming (reg : Registry) : Prop where
   schema : ∀ t ∈ reg.tools, ∃ s, t.desc.inputSchema = some (.obj s) ∧ lookup s t!"type" = some (.str t!"object")
+  /-- …and so do the descriptors a tool list filter returns (it holds for every filter that selects among the registered
+      descriptors: `Registry.listed_of_sublist`) -/
+  listed : ∀ d ∈ reg.toolFilter (reg.tools.map (·.desc)), ∃ s, d.inputSchema = some (.obj s) ∧ lookup s t!"type" = some (.str t!"object")
   prompts : ∀ p ∈ reg.prompts, ∀ a r, p.run a = .result r → promptConforms r
 
 /-- `arguments` of tools/call is absent, `null` or an object -/
